@@ -1,0 +1,10 @@
+//go:build verif
+
+// Contracts for package network, read by /verif/govc (contract-based deductive verification).
+// This file contains comments only; it adds no code to any build.
+
+package network
+
+// ---- C07 ----------------------------------------------------------------------------------------------------------------
+//@ func (*Driver).Close [C07]
+//@   ensures #channel-closed-even-if-on-close-fails implClosed
